@@ -15,7 +15,7 @@ everything else — empty paths, paths under `meta`, absent values, wildcards ag
 cache, type changes — is allowed).
 
 The other receive surfaces of C12 (Subscribe handler, client receive path, CLI display) are
-in `Props/C12Subscribe.lean` / `Props/C12Client.lean`.
+in `Props/C12Surfaces.lean` (namespace `Gnmi.C12S`, models `Model/RecvSurfaces.lean`).
 -/
 namespace Gnmi
 namespace C12
